@@ -130,11 +130,11 @@ var avoidKnown = map[string]bool{
 	"ism-emsg-before-segment-moof": true,
 	// prft in front of a moof is never handed to the Fragment ("[prft] + moof + mdat") and is dropped by
 	// the default encode mode.
-	"prft-dropped": true,
+	"prft-dropped": false, // repaired in /repo (fix: 17f87a4)
 	// File.EncodeSW (segment mode) leaves out the mfra that File.Encode writes.
-	"encodesw-drops-mfra": true,
+	"encodesw-drops-mfra": false, // repaired in /repo (fix: 0036575)
 	// UpdateSidx writes reference_ID 1 whatever the ID of the reference track is.
-	"sidx-reference-id-hardcoded": true,
+	"sidx-reference-id-hardcoded": false, // repaired in /repo (fix: 3c996dd)
 	// UpdateSidx takes time and composition offset of the reference track from the first trun of the first
 	// fragment of the segment only: EPT 0 (or without cto) when the track starts later in the segment.
 	"sidx-ept-first-fragment-only": true,
@@ -147,7 +147,7 @@ var avoidKnown = map[string]bool{
 	"sr-ignores-ism-flag": true,
 	// MediaSegment.Size counts the first sidx of a segment only, Encode writes all of them: the sizes that
 	// UpdateSidx puts into the references are short by the further sidx boxes (mp4/testdata has such a file).
-	"segment-size-counts-first-sidx-only": true,
+	"segment-size-counts-first-sidx-only": false, // repaired in /repo (fix: 3cbd5f5)
 }
 
 type segCase struct {
@@ -278,6 +278,10 @@ func (c *segCase) partition() [][]int {
 }
 
 func isEmsg(x *fragbuild.ExtraBox) bool { return x.Type == "emsg" }
+
+// attached: box types that File.AddChild attaches to the fragment that follows (emsg, and prft since the
+// repair 17f87a4); the segment-detection findings recorded for emsg apply to both.
+func attached(x *fragbuild.ExtraBox) bool { return x.Type == "emsg" || x.Type == "prft" }
 
 // keptPre tells whether a box in front of a moof belongs to the fragment.
 func keptPre(typ string, keepPrft bool) bool { return typ == "emsg" || (typ == "prft" && keepPrft) }
@@ -1557,7 +1561,7 @@ func steerClear(c *segCase) []string {
 			fr := &l.Segments[si].Frags[0]
 			seenEmsg := false
 			if dropPre(fr, func(i int, x *fragbuild.ExtraBox) bool {
-				if isEmsg(x) {
+				if attached(x) {
 					seenEmsg = true
 				}
 				return !seenEmsg
@@ -1584,7 +1588,7 @@ func steerClear(c *segCase) []string {
 	}
 	if rule == "moof" && c.avoid("startonmoof-emsg") {
 		eachFrag(func(si, fi int, fr *fragbuild.Frag) {
-			if dropPre(fr, func(i int, x *fragbuild.ExtraBox) bool { return isEmsg(x) }) {
+			if dropPre(fr, func(i int, x *fragbuild.ExtraBox) bool { return attached(x) }) {
 				note("startonmoof-emsg")
 			}
 		})
@@ -1597,7 +1601,7 @@ func steerClear(c *segCase) []string {
 		}
 		g := 0
 		eachFrag(func(si, fi int, fr *fragbuild.Frag) {
-			if !first[g] && dropPre(fr, func(i int, x *fragbuild.ExtraBox) bool { return isEmsg(x) }) {
+			if !first[g] && dropPre(fr, func(i int, x *fragbuild.ExtraBox) bool { return attached(x) }) {
 				note("emsg-mid-segment-in-previous-fragment")
 			}
 			g++
